@@ -63,9 +63,6 @@ pub fn pair<H: DShape, T: DShape>(g: &mut Grid, maxn: usize) {
                         if rec == n {
                             g.fail("into-thin-refused-right-length", &case, format!("into_thin panicked although the recorded length is right: {}", m));
                         }
-                        if !m.contains("Length needs to be correct") {
-                            g.fail("into-thin-panic-message", &case, format!("unexpected panic: {}", m));
-                        }
                     }
                 }
                 // the Arc passed in has been released properly in either case
